@@ -3,6 +3,7 @@
    against LlcpLife.  Events (uniform records [a, t, s, op, x]):
      Call(t, s, op)   intent: thread t enters public call op on socket s       (no spec step)
      Bound(t, s)      llc.bind() returned for s                               -> Bind(t, s)
+     Adopt(t, c, l)   insert_socket(c) at the access point of listener l (accept) -> Adopt(t, l, c), registration branch
      Wait(t)          t starts to wait inside the call                          -> Call(t, s) with outcome "wait"
      Wake(t)          t re-acquired the lock after a wait
      Took(t, s, x)    the recv()/poll() critical section ended, logged under the socket lock: an item was
@@ -46,11 +47,14 @@ TrBound ==
     /\ UNCHANGED cur
 
 \* accept() returned a new connection socket that shares the listener's access point
+\* (logged inside ServiceAccessPoint.insert_socket, under the controller lock): LlcpLife!Adopt's registration
+\* branch - the CONNECT was taken by this thread and the listener's access point is still live (NoOrphan)
 TrAdopt ==
     /\ Is("Adopt") /\ Step
-    /\ LET r == IF phase = "up" THEN "live" ELSE sk[Ev.op].reg IN
-       /\ sk' = [sk EXCEPT ![Ev.s].reg = IF r = "none" THEN "dead" ELSE r]
-       /\ toShut' = IF r = "live" /\ phase = "terminating" THEN toShut \cup {Ev.s} ELSE toShut
+    /\ th[Ev.t].pc = "done" /\ th[Ev.t].res = "data" /\ th[Ev.t].s = Ev.op
+    /\ sk[Ev.op].reg = "live" /\ sk[Ev.s].reg = "none"
+    /\ sk' = [sk EXCEPT ![Ev.s].reg = "live"]
+    /\ toShut' = IF phase = "terminating" THEN toShut \cup {Ev.s} ELSE toShut
     /\ UNCHANGED <<phase, th, ndel, cur>>
 
 IsMod(t) == cur[t].op \in Modelled
